@@ -420,4 +420,33 @@ def read (input : List Nat) : Result :=
   | some (.error l) => { calls := [], err := some l }
   | some (.ok (inc, a1)) => stepsLoop (a1.rest.length + 1) inc a1 [.initProgram inc]
 
+/-! #### reading step by step: `accept`, then `do parse(Incremental) while (more())` (as Model/AspifIn.lean) -/
+
+/-- one `parse(Incremental)`: the statements of one step, `stream()->skipWs()`, `require(!more() || incremental())` -/
+def parseInc (inc : Bool) (a : AS) : List Call × Except Nat AS :=
+  let r := stmtLoop inc (a.rest.length + 1) a []
+  match r.2 with
+  | .error l => (.beginStep :: r.1, .error l)
+  | .ok a1 =>
+    let m := more a1.skipWs
+    if m.1 && !inc then (.beginStep :: r.1 ++ [.endStep], .error m.2.line)
+    else (.beginStep :: r.1 ++ [.endStep], .ok m.2)
+
+def incLoop : Nat → Bool → AS → List Call → Result
+  | 0, _, _, acc => { calls := acc, err := some 0 }
+  | f + 1, inc, a, acc =>
+    let p := parseInc inc a
+    match p.2 with
+    | .error l => { calls := acc ++ p.1, err := some l }
+    | .ok a1 =>
+      let m := more a1
+      if m.1 then incLoop f inc m.2 (acc ++ p.1) else { calls := acc ++ p.1, err := none }
+
+def readInc (input : List Nat) : Result :=
+  let a := AS.init input
+  match attach a with
+  | none => { calls := [], err := some (a.skipWs).line }
+  | some (.error l) => { calls := [], err := some l }
+  | some (.ok (inc, a1)) => incLoop (a1.rest.length + 1) inc a1 [.initProgram inc]
+
 end PotasscoVerif.TextIn
